@@ -1,27 +1,65 @@
 import Driver.Util
 import RxnModel.Model.KeySpace
+import RxnModel.Model.Assembly
 namespace Driver.C05
 open Rxn Driver
 
 structure St where
-  cache : Option (Nat × Nat × Array Nat) := none
+  cache : Option (Nat × Nat × Array Nat) := none   -- lookup table of the last (kgc, n)
 
 def showRanges (rs : List KGRange) : String :=
   joinWith ";" (rs.map fun r => s!"{r.start},{r.stop}")
 
-/-- index of the unique range containing `g` (justified by `C05.rangeIndex_unique`); used above the table-size cutoff -/
-def rangeIndexBySearch (kgc n : Nat) (key : Bytes) : Nat :=
-  let g := KeySpace.keyGroup kgc key
-  ((KeySpace.ranges kgc n).findIdx? (·.includes g)).getD 0
-
+/-- `RangeIndex` through the `uint16` lookup table of `NewKeySpace` (array form of `KeySpace.lookupTable`,
+`C05.lookupTableA_eq` / `C05.rangeIndexA_eq`), for every key group count; the table is built once per configuration -/
 def rangeIdx (st : St) (kgc n : Nat) (key : Bytes) : St × String :=
-  if kgc ≤ 2048 then
-    let (st, tbl) := match st.cache with
-      | some (a, b, t) => if a == kgc && b == n then (st, t) else
-          let t := (KeySpace.lookupTable kgc n).toArray; ({ cache := some (kgc, n, t) }, t)
-      | none => let t := (KeySpace.lookupTable kgc n).toArray; ({ cache := some (kgc, n, t) }, t)
-    (st, toString (tbl.getD (KeySpace.keyGroup kgc key % 65536) 0))
-  else (st, toString (rangeIndexBySearch kgc n key))
+  let (st, tbl) := match st.cache with
+    | some (a, b, t) => if a == kgc && b == n then (st, t) else
+        let t := KeySpace.lookupTableA kgc n; ({ cache := some (kgc, n, t) }, t)
+    | none => let t := KeySpace.lookupTableA kgc n; ({ cache := some (kgc, n, t) }, t)
+  (st, toString (KeySpace.rangeIndexA tbl kgc key))
+
+open Assembly in
+def parseSteps (s : String) : List RegStep :=
+  (s.splitOn ",").filterMap fun tok =>
+    match tok.toList with
+    | 'o' :: h => some (.regOp (hexOr (String.ofList h)))
+    | 's' :: h => some (.regSr (hexOr (String.ofList h)))
+    | 'O' :: h => some (.deregOp (hexOr (String.ofList h)))
+    | 'S' :: h => some (.deregSr (hexOr (String.ofList h)))
+    | _ => none
+
+def hx (b : Bytes) : String := toHex b
+def ids (l : List Bytes) : String := joinWith "," (l.map hx)
+
+open Assembly in
+/-- registry → `Deploy` → every receiver handles its request → route/own every key -/
+def deployOp (kgc tc : Nat) (steps : List RegStep) (keys : List Bytes) : String :=
+  match newAssembly tc (Reg.run steps) with
+  | none => "noassembly"
+  | some (ops, srs) =>
+    match deploy kgc tc ops srs with
+    | none => "panic"
+    | some D =>
+      let opStates := D.opReqs.map fun (o, req) => (o, req, opHandleDeploy o req)
+      let srStates := D.srReqs.map fun (s, req) => (s, req, srHandleDeploy req)
+      let showOp := fun (x : NodeId × OpReq × Option OpState) =>
+        let (o, req, st) := x
+        s!"{hx o}={req.kgc}:{ids req.operators}:{ids req.srIds}:" ++
+          (match st with | none => "panic" | some st => s!"{st.range.start}-{st.range.stop}/{st.n}")
+      let showSr := fun (x : NodeId × SrReq × Option SrState) =>
+        let (s, req, _) := x
+        s!"{hx s}={req.kgc}:{ids req.operators}"
+      let showKey := fun (k : Bytes) =>
+        let tgts := srStates.map fun (_, _, st) =>
+          match st with
+          | none => "panic"
+          | some st => match srRoute st k with | none => "none" | some t => hx t
+        let owners := fun (f : OpState → Bool) => ids (opStates.filterMap fun (o, _, st) =>
+          match st with | some st => if f st then some o else none | none => none)
+        s!"{hx k}={joinWith "," tgts}/{owners fun st => st.owns (st.dbKey k [110, 115] [7])}/{owners fun st => st.owns (st.timerKey k 123456789)}"
+      s!"A{ids ops}/{ids srs}|O" ++ joinWith ";" (opStates.map showOp) ++ "|S" ++ joinWith ";" (srStates.map showSr) ++
+        "|K" ++ joinWith ";" (keys.map showKey)
 
 def step (st : St) : List String → St × String
   | ["ranges", kgc, n] => (st, showRanges (KeySpace.ranges (natOr kgc) (natOr n)))
@@ -36,7 +74,7 @@ def step (st : St) : List String → St × String
       (st', acc.2 ++ [o])) (st, [])
     (st, joinWith "," outs)
   | ["hashvec", _, _, expected] => (st, expected)   -- spec: published MurmurHash3-32 vectors (C05.murmur_vectors)
-  | ["partition", _, _] => (st, "ok")              -- spec: C05.ranges_partition / ranges_balanced
+  | ["partition", _, _] => (st, "ok")              -- spec: C05.ranges_partition / ranges_balanced / ranges_disjoint / keyGroups_partition
   | ["ownsroute", _, _, _] => (st, "ok")           -- spec: C05.owns_encoded / rangeIndex_unique
   | ["redeploy", kgc, n1, i1, n2, i2, k] =>
     -- one operator process deployed as operator i1 of n1, then as i2 of n2: after each deployment it must own
@@ -47,6 +85,8 @@ def step (st : St) : List String → St × String
       let r := (KeySpace.ranges kgc n).getD i ⟨0, 0⟩
       s!"{r.start},{r.stop}/{n}/{g}/{g}"
     (st, one (natOr n1) (natOr i1) ++ ";" ++ one (natOr n2) (natOr i2))
+  | ["deploy", kgc, tc, steps, keys] =>
+    (st, deployOp (natOr kgc) (natOr tc) (parseSteps steps) ((keys.splitOn ",").map hexOr))
   | ["dbkey", kgc, k, ns, d] => (st, toHex (Keys.dbKey (natOr kgc) (hexOr k) (hexOr ns) (hexOr d)))
   | ["subjkey", kgc, k] => (st, toHex (Keys.subjectKey (natOr kgc) (hexOr k)))
   | ["timerkey", kgc, k, t] => (st, toHex (Keys.timerKey (natOr kgc) (hexOr k) (natOr t)))
